@@ -137,7 +137,7 @@ class _Run:
 
     def run(self, c, label, fn):
         """returns (exception or None)"""
-        if c.txn is None and not c.closed and not self.case.get("pinned"):
+        if c.txn in (None, "failed") and not c.closed and not c.invalid and not self.case.get("pinned"):
             # known finding: ordinary error before autobegin -> autorollback -> disconnect on that rollback is
             # surfaced with connection_invalidated=False.  Keep the second fault away.
             nc, nr = self.db.counts["cursor"], self.db.counts["rollback"]
@@ -164,8 +164,8 @@ class _Run:
             raise Violation(f"C27/silent-continuation/{label}", f"{label} succeeded although the transaction was lost / failed and rollback() has not been called; {self.T()}",
                             observed="returned normally", expected="PendingRollbackError")
         if isinstance(e, exc.DBAPIError) and not c.invalid:
-            f = self.fault_of(e)
-            if f and f[0] == "cursor":
+            nf = self.new_faults()
+            if nf and nf[0][1] == "cursor":
                 # the cursor is created (on the still-valid connection) before the state check: a fault there surfaces as itself
                 self.dbapi_failure(c, label, e, False)
                 self.cls.add("blocked-op:cursor-fault")
